@@ -362,7 +362,7 @@ func relayout(rt *rapid.T, tmpl, payload string, cond bool) string {
 }
 
 func TestScanContextClosed(t *testing.T) {
-	hx.Rule("scan_context_closed", "documented payloads (3 tautologies, 6 time-delay/dangerous calls, 4 UNION probes) x condition/expression positions of the grammar (110 for conditions/calls incl. sub-queries underneath function calls, casts, CASE results, lists, tuples and operators, operand positions under comparisons, arithmetic, casts and CASE, MERGE ON / WHEN conditions, SET and INSERT values and view bodies, 6 for UNION probes, nesting depth up to 2) x layouts (whitespace, keyword/function letter case, redundant parentheses) x 4 severity thresholds; the class/severity reported for the payload as top-level WHERE condition must be reported at every position and layout; thresholds filter exactly; counts equal the list; the tree is not mutated; A,B,A scans agree; a used scanner whose MinSeverity field is changed between scans answers like a fresh one; non-trivial = position is not the base and nesting depth >= 1; distinct = payload x position x layout hash")
+	hx.Rule("scan_context_closed", "documented payloads (3 tautologies, 6 time-delay/dangerous calls, 4 UNION probes) x condition/expression positions of the grammar (107 for conditions/calls incl. sub-queries underneath function calls, casts, CASE results, lists, tuples and operators, operand positions under comparisons, arithmetic, casts and CASE, MERGE ON / WHEN conditions, SET and INSERT values and view bodies, 6 for UNION probes, nesting depth up to 2) x layouts (whitespace, keyword/function letter case, redundant parentheses) x 4 severity thresholds; the class/severity reported for the payload as top-level WHERE condition must be reported at every position and layout; thresholds filter exactly; counts equal the list; the tree is not mutated; A,B,A scans agree; a used scanner whose MinSeverity field is changed between scans answers like a fresh one; non-trivial = position is not the base and nesting depth >= 1; distinct = payload x position x layout hash")
 	scanCheck.Rapid(t, hx.N(60000, 600000), genScanPositions)
 }
 
